@@ -51,6 +51,13 @@ CONSTS = [
     ("PEER_ID_MULTIHASH_SIZE", "src/peer_id.rs", r"type\s+Multihash\s*=\s*multihash::Multihash<\s*(\d+)\s*>\s*;"),
 ]
 
+# String constants (group 1 = the literal's content, plain ASCII without escapes): emitted as
+# <name>_BE (the bytes read as one big-endian number) and <name>_LEN.
+STR_CONSTS = [
+    # C01
+    ("C01_STATIC_KEY_DOMAIN", NOISE, r'const\s+STATIC_KEY_DOMAIN\s*:\s*&str\s*=\s*"([^"\\\\]*)"\s*;'),
+]
+
 
 def eval_int(expr, names=None):
     e = re.sub(r"(?<=\d)_(?=\d)", "", expr)
@@ -99,6 +106,21 @@ def main():
             vals[name] = eval_int(m.group(1), vals)
         except Exception as e:  # noqa
             missing.append((name, path, str(e)))
+    str_names = []
+    for name, path, rx in STR_CONSTS:
+        try:
+            src = open(os.path.join(REPO, path)).read()
+        except OSError:
+            missing.append((name + "_BE", path, "file not found"))
+            continue
+        m = re.search(rx, src)
+        if not m or not m.group(1).isascii():
+            missing.append((name + "_BE", path, "pattern not found"))
+            continue
+        raw = m.group(1).encode("ascii")
+        vals[name + "_BE"] = int.from_bytes(raw, "big") if raw else 0
+        vals[name + "_LEN"] = len(raw)
+        str_names += [name + "_BE", name + "_LEN"]
     lines = [
         "(* GENERATED by tools/gen_consts.py from the Rust source on every check. Do not edit. *)",
         "From Coq Require Import NArith.",
@@ -108,6 +130,8 @@ def main():
     for name, _, _ in CONSTS:
         if name in vals:
             lines.append("Definition %s : N := %d." % (name, vals[name]))
+    for name in str_names:
+        lines.append("Definition %s : N := %d." % (name, vals[name]))
     text = "\n".join(lines) + "\n"
     os.makedirs(os.path.dirname(OUT), exist_ok=True)
     old = open(OUT).read() if os.path.exists(OUT) else None
